@@ -201,17 +201,19 @@ def buildVocabAuto (alphabet : List Char) (merges : List (String × String))
     | (a, b) :: rest => go (i + 1) rest ((a ++ b, start + i) :: acc)
   go 0 merges withEow
 
-/-- `Bpe::encode_piece` (without `ignore_merges`): one token per byte, optional end-of-word
-adjustment `last + 256`, then `bpe_merge`. `none` = a byte outside the modelled alphabet. -/
-def encodePiece (vc : Vocab) (m : MergeMap Nat) (eow : Bool) (piece : String) : Option (List Nat) :=
+/-- `Bpe::encode_piece` (without `ignore_merges`): one token per byte; with an end-of-word suffix
+the last byte's token is replaced by the id of `"{byte}{suffix}"` looked up in the vocabulary
+(`eow_byte_to_token_id`, falling back to `id(byte) + 256`, the layout of `build_vocab`); then
+`bpe_merge`. `none` = a byte outside the modelled alphabet. -/
+def encodePiece (vc : Vocab) (m : MergeMap Nat) (eow : Option String) (piece : String) :
+    Option (List Nat) :=
   match piece.toList.mapM (fun c => vocabGet vc (String.singleton c)) with
   | none => none
   | some ids =>
-    let ids := if eow then
-        match ids.reverse with
-        | [] => []
-        | last :: r => (((last + 256) % 4294967296) :: r).reverse
-      else ids
+    let ids := match eow, piece.toList.getLast?, ids.reverse with
+      | some sfx, some c, last :: r =>
+        ((vocabGet vc (String.singleton c ++ sfx)).getD ((last + 256) % 4294967296) :: r).reverse
+      | _, _, _ => ids
     some (bpeMerge m ids)
 
 end RtenVerif.Bpe
